@@ -104,4 +104,777 @@ theorem scan_finds_object_aux (ts : List Tok) (hb : BalancedObj ts) (rest : Byte
   simp only
   omega
 
+/-- the scanner as it was before the repair (every `"` toggles the quote state, escaped or not) —
+    kept only to state the defect as a theorem -/
+def scanLoopOld : Scan → Nat → Bytes → Scan
+  | st, _, [] => st
+  | st, i, c :: t => if st.stop ≥ 0 then st else scanLoopOld (scanStep st i c) (i + 1) t
+
+def scanJsonOld (h : Bytes) : Option (Nat × Nat) :=
+  let st := scanLoopOld Scan.init 0 h
+  if st.start < 0 ∨ st.stop < 0 then none else some (st.start.toNat, st.stop.toNat + 1)
+
+/-! ## bytes, qualities -/
+
+theorem forall_uint8 (P : UInt8 → Prop) (h : ∀ n, n < 256 → P (UInt8.ofNat n)) : ∀ c, P c := fun c => by
+  have := h c.toNat c.toNat_lt
+  simpa using this
+
+theorem clamp_eq_min (q : UInt8) : (if q > 93 then 93 else q) = min q 93 := by
+  by_cases h : q > 93
+  · have h' : ¬ q ≤ 93 := by simpa using h
+    simp only [h, ↓reduceIte]
+    exact Eq.symm (Std.LawfulOrderLeftLeaningMin.min_eq_right q 93 h')
+  · have h' : q ≤ 93 := by simpa using h
+    simp only [h, ↓reduceIte]
+    exact Eq.symm (Std.LawfulOrderLeftLeaningMin.min_eq_left q 93 h')
+
+set_option maxRecDepth 100000 in
+theorem seqOK_spec : ∀ c : UInt8, seqOK c = true → isSep c = false ∧ lower c = c := by
+  apply forall_uint8
+  decide
+
+/-! ## folding -/
+
+theorem foldLinesF_nil (n : Nat) : foldLinesF n [] = [] := by cases n <;> simp [foldLinesF]
+
+theorem foldLinesF_filter (n : Nat) (s : Bytes) (h : s.length ≤ n) :
+    (foldLinesF n s).filter (fun c => !isSep c) = s.filter (fun c => !isSep c) := by
+  induction n generalizing s with
+  | zero =>
+    have : s = [] := List.length_eq_zero_iff.mp (by omega)
+    subst this; simp [foldLinesF]
+  | succ n ih =>
+    simp only [foldLinesF]
+    split
+    · rename_i h0; subst h0; simp
+    · rename_i h0
+      have hl : (s.drop 60).length ≤ n := by
+        have : 0 < s.length := List.length_pos_iff.mpr h0
+        simp only [List.length_drop]; omega
+      have e10 : isSep 10 = true := by decide
+      rw [List.filter_append, List.filter_cons, ih _ hl]
+      simp only [e10, Bool.not_true, Bool.false_eq_true, ↓reduceIte]
+      rw [← List.filter_append, List.take_append_drop]
+
+theorem foldLinesF_ends (n : Nat) (s : Bytes) (h : s.length ≤ n) (h0 : s ≠ []) :
+    ∃ x, foldLinesF n s = x ++ [10] := by
+  induction n generalizing s with
+  | zero =>
+    have : s = [] := List.length_eq_zero_iff.mp (by omega)
+    exact absurd this h0
+  | succ n ih =>
+    simp only [foldLinesF, h0, ↓reduceIte]
+    by_cases hd : s.drop 60 = []
+    · rw [hd, foldLinesF_nil]; exact ⟨s.take 60, rfl⟩
+    · have hl : (s.drop 60).length ≤ n := by
+        have : 0 < s.length := List.length_pos_iff.mpr h0
+        simp only [List.length_drop]; omega
+      obtain ⟨y, hy⟩ := ih _ hl hd
+      rw [hy]; exact ⟨s.take 60 ++ 10 :: y, by simp⟩
+
+theorem fold60_filter (s : Bytes) :
+    (fold60 s).filter (fun c => !isSep c) = s.filter (fun c => !isSep c) := by
+  unfold fold60
+  split
+  · rename_i h; subst h; rfl
+  · rename_i h
+    obtain ⟨x, hx⟩ := foldLinesF_ends s.length s (Nat.le_refl _) h
+    have e := foldLinesF_filter s.length s (Nat.le_refl _)
+    have e10 : isSep 10 = true := by decide
+    unfold foldLines
+    rw [hx] at e ⊢
+    rw [List.dropLast_concat]
+    rw [← e, List.filter_append]
+    simp [e10]
+
+theorem unfold_id (s : Bytes) (hA : ∀ c ∈ s, seqOK c = true) :
+    (s.filter (fun c => !isSep c)).map lower = s := by
+  induction s with
+  | nil => rfl
+  | cons c t ih =>
+    have ⟨h1, h2⟩ := seqOK_spec c (hA c (by simp))
+    have := ih (fun c hc => hA c (List.mem_cons_of_mem _ hc))
+    simp [h1, h2, this]
+
+/-! ## title line -/
+
+theorem splitTitle_writeTitle (id info : Bytes) (hid : ∀ c ∈ id, isSep c = false)
+    (hinfo : ∀ c, info.head? = some c → isSpace c = false) :
+    splitTitle (writeTitle id info) = (id, info) := by
+  have e32 : isSep 32 = true := by decide
+  have s32 : isSpace 32 = true := by decide
+  have hi : info.dropWhile isSpace = info := by
+    cases info with
+    | nil => rfl
+    | cons c t => simp [hinfo c rfl]
+  unfold splitTitle writeTitle
+  induction id with
+  | nil => simp [e32, s32, hi]
+  | cons c t ih =>
+    have hc := hid c (by simp)
+    have := ih (fun c hc => hid c (List.mem_cons_of_mem _ hc))
+    simp only [Prod.mk.injEq] at this
+    simp [hc, this.1, this.2]
+
+/-! ## the FASTA parser state machine on a written record -/
+
+theorem isSep_false {c : UInt8} (h : isSep c = false) : isSpace c = false ∧ isEol c = false := by
+  simp [isSep] at h; exact h
+
+theorem isEol_isSep {c : UInt8} (h : isEol c = true) : isSep c = true := by simp [isSep, h]
+
+theorem foldlM_cons_ok {σ : Type} (f : σ → UInt8 → Except Err σ) (st st' : σ) (c : UInt8) (t : Bytes)
+    (h : f st c = .ok st') : List.foldlM f st (c :: t) = List.foldlM f st' t := by
+  simp [List.foldlM_cons, h]
+  rfl
+
+/-- FASTA state 2: the identifier is accumulated up to the first separator -/
+theorem fa_id (w rest : Bytes) (hw : ∀ c ∈ w, isSep c = false)
+    (idB dB sB qB ident defn : Bytes) (prev : UInt8) (out : List Rec) :
+    ∃ p, List.foldlM faStep ⟨2, idB, dB, sB, qB, ident, defn, prev, out⟩ (w ++ rest)
+       = List.foldlM faStep ⟨2, idB ++ w, dB, sB, qB, ident, defn, p, out⟩ rest := by
+  induction w generalizing idB prev with
+  | nil => exact ⟨prev, by simp⟩
+  | cons c t ih =>
+    have hc := hw c (by simp)
+    obtain ⟨h1, h2⟩ := isSep_false hc
+    obtain ⟨p, hp⟩ := ih (fun c h => hw c (List.mem_cons_of_mem _ h)) (idB ++ [c]) c
+    refine ⟨p, ?_⟩
+    rw [List.cons_append, foldlM_cons_ok faStep _ ⟨2, idB ++ [c], dB, sB, qB, ident, defn, c, out⟩]
+    · rw [hp]; simp
+    · simp [faStep, hc, h2]
+
+/-- FASTA state 4: the definition is accumulated up to the end of the line -/
+theorem fa_def (w rest : Bytes) (hw : ∀ c ∈ w, isEol c = false)
+    (idB dB sB qB ident defn : Bytes) (prev : UInt8) (out : List Rec) :
+    ∃ p, List.foldlM faStep ⟨4, idB, dB, sB, qB, ident, defn, prev, out⟩ (w ++ rest)
+       = List.foldlM faStep ⟨4, idB, dB ++ w, sB, qB, ident, defn, p, out⟩ rest := by
+  induction w generalizing dB prev with
+  | nil => exact ⟨prev, by simp⟩
+  | cons c t ih =>
+    have hc := hw c (by simp)
+    obtain ⟨p, hp⟩ := ih (fun c h => hw c (List.mem_cons_of_mem _ h)) (dB ++ [c]) c
+    refine ⟨p, ?_⟩
+    rw [List.cons_append, foldlM_cons_ok faStep _ ⟨4, idB, dB ++ [c], sB, qB, ident, defn, c, out⟩]
+    · rw [hp]; simp
+    · simp [faStep, hc]
+
+/-- FASTA state 6: sequence lines are accumulated, separators dropped -/
+theorem fa_seq (w : Bytes) (hw : ∀ c ∈ w, isSep c = true ∨ seqOK c = true)
+    (idB dB sB qB ident defn : Bytes) (prev : UInt8) (out : List Rec) :
+    ∃ p, List.foldlM faStep ⟨6, idB, dB, sB, qB, ident, defn, prev, out⟩ w
+       = .ok ⟨6, idB, dB, sB ++ (w.filter (fun c => !isSep c)).map lower, qB, ident, defn, p, out⟩ := by
+  induction w generalizing sB prev with
+  | nil => exact ⟨prev, by simp; rfl⟩
+  | cons c t ih =>
+    have ht := fun c h => hw c (List.mem_cons_of_mem _ h)
+    have h62s : isSep 62 = false := by decide
+    have h62o : seqOK 62 = false := by decide
+    have hne : c ≠ 62 := by
+      intro e; subst e
+      rcases hw 62 (by simp) with h | h
+      · rw [h62s] at h; cases h
+      · rw [h62o] at h; cases h
+    rcases hw c (by simp) with hc | hc
+    · obtain ⟨p, hp⟩ := ih ht sB c
+      refine ⟨p, ?_⟩
+      rw [foldlM_cons_ok faStep _ ⟨6, idB, dB, sB, qB, ident, defn, c, out⟩]
+      · rw [hp]; simp [hc]
+      · simp [faStep, hc, hne]
+    · obtain ⟨h1, h2⟩ := seqOK_spec c hc
+      obtain ⟨p, hp⟩ := ih ht (sB ++ [c]) c
+      refine ⟨p, ?_⟩
+      rw [foldlM_cons_ok faStep _ ⟨6, idB, dB, sB ++ [c], qB, ident, defn, c, out⟩]
+      · rw [hp]; simp [h1, h2]
+      · simp [faStep, h1, h2, hc, hne]
+
+/-- from state 3 (after the identifier and one blank) over `info ++ "\n"` : state 5 with the definition = info -/
+theorem fa_title (info rest : Bytes) (hinfo : ∀ c ∈ info, isEol c = false)
+    (hhead : ∀ c, info.head? = some c → isSpace c = false)
+    (idB dB sB qB ident defn : Bytes) (prev : UInt8) (out : List Rec) :
+    ∃ p d, List.foldlM faStep ⟨3, idB, dB, sB, qB, ident, defn, prev, out⟩ (info ++ 10 :: rest)
+       = List.foldlM faStep ⟨5, idB, d, sB, qB, ident, info, p, out⟩ rest := by
+  have e10 : isEol 10 = true := by decide
+  cases info with
+  | nil =>
+    refine ⟨10, dB, ?_⟩
+    rw [List.nil_append, foldlM_cons_ok faStep _ ⟨5, idB, dB, sB, qB, ident, [], 10, out⟩]
+    simp [faStep, e10]
+  | cons c t =>
+    have hc := hinfo c (by simp)
+    have hs := hhead c rfl
+    obtain ⟨p, hp⟩ := fa_def t (10 :: rest) (fun c h => hinfo c (List.mem_cons_of_mem _ h)) idB [c] sB qB ident defn c out
+    refine ⟨10, c :: t, ?_⟩
+    rw [List.cons_append, foldlM_cons_ok faStep _ ⟨4, idB, [c], sB, qB, ident, defn, c, out⟩]
+    · rw [hp, foldlM_cons_ok faStep _ ⟨5, idB, c :: t, sB, qB, ident, c :: t, 10, out⟩]
+      simp [faStep, e10]
+    · simp [faStep, hc, hs]
+
+
+theorem mem_foldLinesF (n : Nat) (s : Bytes) (c : UInt8) (h : c ∈ foldLinesF n s) : c = 10 ∨ c ∈ s := by
+  induction n generalizing s with
+  | zero => simp [foldLinesF] at h
+  | succ n ih =>
+    simp only [foldLinesF] at h
+    split at h
+    · simp at h
+    · simp only [List.mem_append, List.mem_cons] at h
+      rcases h with h | h | h
+      · exact Or.inr (List.mem_of_mem_take h)
+      · exact Or.inl h
+      · rcases ih _ h with h | h
+        · exact Or.inl h
+        · exact Or.inr (List.mem_of_mem_drop h)
+
+theorem fold60_cons (s0 : UInt8) (t : Bytes) :
+    ∃ r, fold60 (s0 :: t) = s0 :: r ∧ ∀ c ∈ r, c = 10 ∨ c ∈ s0 :: t := by
+  have hne : t.take 59 ++ 10 :: foldLinesF t.length ((s0 :: t).drop 60) ≠ [] := by simp
+  refine ⟨(t.take 59 ++ 10 :: foldLinesF t.length ((s0 :: t).drop 60)).dropLast, ?_, ?_⟩
+  · simp only [fold60, foldLines, List.length_cons, foldLinesF]
+    simp only [reduceCtorEq, ↓reduceIte, List.take_succ_cons, List.cons_append]
+    rw [List.dropLast_cons_of_ne_nil hne]
+  · intro c hc
+    have hc := List.dropLast_subset _ hc
+    simp only [List.mem_append, List.mem_cons] at hc
+    rcases hc with h | h | h
+    · exact Or.inr (List.mem_cons_of_mem _ (List.mem_of_mem_take h))
+    · exact Or.inl h
+    · rcases mem_foldLinesF _ _ _ h with h | h
+      · exact Or.inl h
+      · exact Or.inr (List.mem_of_mem_drop h)
+
+/-- **FASTA write then parse** (the real state machine): one record written by `FormatFastaBatch` is parsed back
+    as the same identifier, title remainder and sequence -/
+theorem parseFasta_formatFasta (id info seq : Bytes)
+    (hid0 : id ≠ []) (hid : ∀ c ∈ id, isSep c = false)
+    (hinfo : ∀ c ∈ info, isEol c = false) (hhead : ∀ c, info.head? = some c → isSpace c = false)
+    (hseq0 : seq ≠ []) (hseq : ∀ c ∈ seq, seqOK c = true) :
+    parseFasta (formatFasta id info seq ++ [10]) = .ok [⟨id, info, seq, none⟩] := by
+  cases id with
+  | nil => exact absurd rfl hid0
+  | cons i0 id' =>
+  cases seq with
+  | nil => exact absurd rfl hseq0
+  | cons s0 seq' =>
+  have hi0 := hid i0 (by simp)
+  obtain ⟨hi0s, hi0e⟩ := isSep_false hi0
+  have hne32 : i0 ≠ 32 := by intro e; subst e; revert hi0; decide
+  obtain ⟨r, hr, hrm⟩ := fold60_cons s0 seq'
+  obtain ⟨hs0sep, hs0low⟩ := seqOK_spec s0 (hseq s0 (by simp))
+  obtain ⟨_, hs0e⟩ := isSep_false hs0sep
+  have e32s : isSep 32 = true := by decide
+  have e32e : isEol 32 = false := by decide
+  -- the text
+  have htext : formatFasta (i0 :: id') info (s0 :: seq') ++ [10]
+      = 62 :: i0 :: (id' ++ 32 :: (info ++ 10 :: s0 :: (r ++ [10]))) := by
+    simp [formatFasta, hr]
+  rw [htext]
+  simp only [parseFasta, ne_eq, not_true_eq_false, ↓reduceIte, hne32]
+  -- run the machine
+  rw [foldlM_cons_ok faStep _ ⟨1, [], [], [], [], [], [], 62, []⟩ _ _ (by simp [faStep])]
+  rw [foldlM_cons_ok faStep _ ⟨2, [i0], [], [], [], [], [], i0, []⟩ _ _ (by simp [faStep, hi0])]
+  obtain ⟨p1, h1⟩ := fa_id id' (32 :: (info ++ 10 :: s0 :: (r ++ [10])))
+    (fun c h => hid c (List.mem_cons_of_mem _ h)) [i0] [] [] [] [] [] i0 []
+  rw [h1]
+  rw [foldlM_cons_ok faStep _ ⟨3, [], [], [], [], i0 :: id', [], 32, []⟩ _ _ (by simp [faStep, e32s, e32e])]
+  obtain ⟨p2, d2, h2⟩ := fa_title info (s0 :: (r ++ [10])) hinfo hhead [] [] [] [] (i0 :: id') [] 32 []
+  rw [h2]
+  rw [foldlM_cons_ok faStep _ ⟨6, [], d2, [s0], [], i0 :: id', info, s0, []⟩ _ _
+    (by simp [faStep, hs0e, hs0low, hseq s0 (by simp)])]
+  have hrw : ∀ c ∈ r ++ [10], isSep c = true ∨ seqOK c = true := by
+    intro c hc
+    simp only [List.mem_append, List.mem_singleton] at hc
+    rcases hc with hc | hc
+    · rcases hrm c hc with h | h
+      · subst h; exact Or.inl (by decide)
+      · exact Or.inr (hseq c h)
+    · subst hc; exact Or.inl (by decide)
+  obtain ⟨p3, h3⟩ := fa_seq (r ++ [10]) hrw [] d2 [s0] [] (i0 :: id') info s0 []
+  rw [h3]
+  -- the sequence collected is the sequence written
+  have hf := fold60_filter (s0 :: seq')
+  rw [hr] at hf
+  have hseq' : ∀ c ∈ seq', seqOK c = true := fun c h => hseq c (List.mem_cons_of_mem _ h)
+  have hf2 : (List.filter (fun c => !isSep c) (r ++ [10])).map lower = seq' := by
+    have e10 : isSep 10 = true := by decide
+    simp only [List.filter_cons, hs0sep, Bool.not_false, ↓reduceIte, List.cons.injEq, true_and] at hf
+    rw [List.filter_append, hf]
+    simp only [List.filter_cons, e10, Bool.not_true, Bool.false_eq_true, ↓reduceIte, List.filter_nil,
+      List.append_nil]
+    exact unfold_id seq' hseq'
+  rw [hf2]
+  simp
+  rfl
+
+/-! ## the FASTQ parser state machine on a written record -/
+
+theorem fq_id (sh : UInt8) (w rest : Bytes) (hw : ∀ c ∈ w, isSep c = false)
+    (idB dB sB qB ident defn : Bytes) (prev : UInt8) (out : List Rec) :
+    ∃ p, List.foldlM (fqStep sh true) ⟨2, idB, dB, sB, qB, ident, defn, prev, out⟩ (w ++ rest)
+       = List.foldlM (fqStep sh true) ⟨2, idB ++ w, dB, sB, qB, ident, defn, p, out⟩ rest := by
+  induction w generalizing idB prev with
+  | nil => exact ⟨prev, by simp⟩
+  | cons c t ih =>
+    have hc := hw c (by simp)
+    obtain ⟨h1, h2⟩ := isSep_false hc
+    obtain ⟨p, hp⟩ := ih (fun c h => hw c (List.mem_cons_of_mem _ h)) (idB ++ [c]) c
+    refine ⟨p, ?_⟩
+    rw [List.cons_append, foldlM_cons_ok (fqStep sh true) _ ⟨2, idB ++ [c], dB, sB, qB, ident, defn, c, out⟩]
+    · rw [hp]; simp
+    · simp [fqStep, hc, h2]
+
+theorem fq_def (sh : UInt8) (w rest : Bytes) (hw : ∀ c ∈ w, isEol c = false)
+    (idB dB sB qB ident defn : Bytes) (prev : UInt8) (out : List Rec) :
+    ∃ p, List.foldlM (fqStep sh true) ⟨4, idB, dB, sB, qB, ident, defn, prev, out⟩ (w ++ rest)
+       = List.foldlM (fqStep sh true) ⟨4, idB, dB ++ w, sB, qB, ident, defn, p, out⟩ rest := by
+  induction w generalizing dB prev with
+  | nil => exact ⟨prev, by simp⟩
+  | cons c t ih =>
+    have hc := hw c (by simp)
+    obtain ⟨p, hp⟩ := ih (fun c h => hw c (List.mem_cons_of_mem _ h)) (dB ++ [c]) c
+    refine ⟨p, ?_⟩
+    rw [List.cons_append, foldlM_cons_ok (fqStep sh true) _ ⟨4, idB, dB ++ [c], sB, qB, ident, defn, c, out⟩]
+    · rw [hp]; simp
+    · simp [fqStep, hc]
+
+theorem fq_title (sh : UInt8) (info rest : Bytes) (hinfo : ∀ c ∈ info, isEol c = false)
+    (hhead : ∀ c, info.head? = some c → isSpace c = false)
+    (idB dB sB qB ident defn : Bytes) (prev : UInt8) (out : List Rec) :
+    ∃ p d, List.foldlM (fqStep sh true) ⟨3, idB, dB, sB, qB, ident, defn, prev, out⟩ (info ++ 10 :: rest)
+       = List.foldlM (fqStep sh true) ⟨5, idB, d, sB, qB, ident, info, p, out⟩ rest := by
+  have e10 : isEol 10 = true := by decide
+  cases info with
+  | nil =>
+    refine ⟨10, dB, ?_⟩
+    rw [List.nil_append, foldlM_cons_ok (fqStep sh true) _ ⟨5, idB, dB, sB, qB, ident, [], 10, out⟩]
+    simp [fqStep, e10]
+  | cons c t =>
+    have hc := hinfo c (by simp)
+    have hs := hhead c rfl
+    obtain ⟨p, hp⟩ := fq_def sh t (10 :: rest) (fun c h => hinfo c (List.mem_cons_of_mem _ h)) idB [c] sB qB ident defn c out
+    refine ⟨10, c :: t, ?_⟩
+    rw [List.cons_append, foldlM_cons_ok (fqStep sh true) _ ⟨4, idB, [c], sB, qB, ident, defn, c, out⟩]
+    · rw [hp, foldlM_cons_ok (fqStep sh true) _ ⟨5, idB, c :: t, sB, qB, ident, c :: t, 10, out⟩]
+      simp [fqStep, e10]
+    · simp [fqStep, hc, hs]
+
+/-- FASTQ state 6: the sequence line -/
+theorem fq_seq (sh : UInt8) (w rest : Bytes) (hw : ∀ c ∈ w, seqOK c = true)
+    (idB dB sB qB ident defn : Bytes) (prev : UInt8) (out : List Rec) :
+    ∃ p, List.foldlM (fqStep sh true) ⟨6, idB, dB, sB, qB, ident, defn, prev, out⟩ (w ++ rest)
+       = List.foldlM (fqStep sh true) ⟨6, idB, dB, sB ++ w, qB, ident, defn, p, out⟩ rest := by
+  induction w generalizing sB prev with
+  | nil => exact ⟨prev, by simp⟩
+  | cons c t ih =>
+    have hc := hw c (by simp)
+    obtain ⟨h1, h2⟩ := seqOK_spec c hc
+    obtain ⟨_, h3⟩ := isSep_false h1
+    obtain ⟨p, hp⟩ := ih (fun c h => hw c (List.mem_cons_of_mem _ h)) (sB ++ [c]) c
+    refine ⟨p, ?_⟩
+    rw [List.cons_append, foldlM_cons_ok (fqStep sh true) _ ⟨6, idB, dB, sB ++ [c], qB, ident, defn, c, out⟩]
+    · rw [hp]; simp
+    · simp [fqStep, hc, h2, h3]
+
+/-- FASTQ state 10: the quality line -/
+theorem fq_qual (sh : UInt8) (w rest : Bytes) (hw : ∀ c ∈ w, isEol c = false)
+    (idB dB sB qB ident defn : Bytes) (prev : UInt8) (out : List Rec) :
+    ∃ p, List.foldlM (fqStep sh true) ⟨10, idB, dB, sB, qB, ident, defn, prev, out⟩ (w ++ rest)
+       = List.foldlM (fqStep sh true) ⟨10, idB, dB, sB, qB ++ w, ident, defn, p, out⟩ rest := by
+  induction w generalizing qB prev with
+  | nil => exact ⟨prev, by simp⟩
+  | cons c t ih =>
+    have hc := hw c (by simp)
+    obtain ⟨p, hp⟩ := ih (fun c h => hw c (List.mem_cons_of_mem _ h)) (qB ++ [c]) c
+    refine ⟨p, ?_⟩
+    rw [List.cons_append, foldlM_cons_ok (fqStep sh true) _ ⟨10, idB, dB, sB, qB ++ [c], ident, defn, c, out⟩]
+    · rw [hp]; simp
+    · simp [fqStep, hc]
+
+/-- **FASTQ write then parse** (the real state machine) -/
+theorem parseFastq_formatFastq (so si : UInt8) (id info seq : Bytes) (q : Option Bytes)
+    (hid0 : id ≠ []) (hid : ∀ c ∈ id, isSep c = false)
+    (hinfo : ∀ c ∈ info, isEol c = false) (hhead : ∀ c, info.head? = some c → isSpace c = false)
+    (hseq0 : seq ≠ []) (hseq : ∀ c ∈ seq, seqOK c = true)
+    (hql : (qualities seq q).length = seq.length)
+    (hqe : ∀ c ∈ (qualities seq q).map (writeQ so), isEol c = false) :
+    parseFastq si true (formatFastq so id info seq q)
+      = .ok [⟨id, info, seq, some (((qualities seq q).map (writeQ so)).map (readQ si))⟩] := by
+  generalize hQ : (qualities seq q).map (writeQ so) = Q at hqe ⊢
+  have hQl : Q.length = seq.length := by rw [← hQ, List.length_map, hql]
+  cases id with
+  | nil => exact absurd rfl hid0
+  | cons i0 id' =>
+  cases seq with
+  | nil => exact absurd rfl hseq0
+  | cons s0 seq' =>
+  cases Q with
+  | nil => simp at hQl
+  | cons q0 Q' =>
+  have hi0 := hid i0 (by simp)
+  obtain ⟨hs0sep, hs0low⟩ := seqOK_spec s0 (hseq s0 (by simp))
+  obtain ⟨_, hs0e⟩ := isSep_false hs0sep
+  have e32s : isSep 32 = true := by decide
+  have e32e : isEol 32 = false := by decide
+  have e10 : isEol 10 = true := by decide
+  have e43 : isEol 43 = false := by decide
+  have hq0 := hqe q0 (by simp)
+  have htext : formatFastq so (i0 :: id') info (s0 :: seq') q
+      = 64 :: i0 :: (id' ++ 32 :: (info ++ 10 :: s0 :: (seq' ++ 10 :: 43 :: 10 :: q0 :: (Q' ++ [10])))) := by
+    simp [formatFastq, hQ]
+  rw [htext]
+  simp only [parseFastq]
+  rw [foldlM_cons_ok (fqStep si true) _ ⟨1, [], [], [], [], [], [], 64, []⟩ _ _ (by simp [fqStep])]
+  rw [foldlM_cons_ok (fqStep si true) _ ⟨2, [i0], [], [], [], [], [], i0, []⟩ _ _ (by simp [fqStep, hi0])]
+  obtain ⟨p1, h1⟩ := fq_id si id' (32 :: (info ++ 10 :: s0 :: (seq' ++ 10 :: 43 :: 10 :: q0 :: (Q' ++ [10]))))
+    (fun c h => hid c (List.mem_cons_of_mem _ h)) [i0] [] [] [] [] [] i0 []
+  rw [h1]
+  rw [foldlM_cons_ok (fqStep si true) _ ⟨3, [i0] ++ id', [], [], [], i0 :: id', [], 32, []⟩ _ _
+    (by simp [fqStep, e32s, e32e])]
+  obtain ⟨p2, d2, h2⟩ := fq_title si info (s0 :: (seq' ++ 10 :: 43 :: 10 :: q0 :: (Q' ++ [10]))) hinfo hhead
+    ([i0] ++ id') [] [] [] (i0 :: id') [] 32 []
+  rw [h2]
+  rw [foldlM_cons_ok (fqStep si true) _ ⟨6, [i0] ++ id', d2, [s0], [], i0 :: id', info, s0, []⟩ _ _
+    (by simp [fqStep, hs0e, hs0low])]
+  obtain ⟨p3, h3⟩ := fq_seq si seq' (10 :: 43 :: 10 :: q0 :: (Q' ++ [10]))
+    (fun c h => hseq c (List.mem_cons_of_mem _ h)) ([i0] ++ id') d2 [s0] [] (i0 :: id') info s0 []
+  rw [h3]
+  rw [foldlM_cons_ok (fqStep si true) _
+    ⟨7, [i0] ++ id', d2, [s0] ++ seq', [], i0 :: id', info, 10, [⟨i0 :: id', info, [s0] ++ seq', none⟩]⟩ _ _
+    (by simp [fqStep, e10])]
+  rw [foldlM_cons_ok (fqStep si true) _
+    ⟨8, [i0] ++ id', d2, [s0] ++ seq', [], i0 :: id', info, 43, [⟨i0 :: id', info, [s0] ++ seq', none⟩]⟩ _ _
+    (by simp [fqStep, e43])]
+  rw [foldlM_cons_ok (fqStep si true) _
+    ⟨9, [i0] ++ id', d2, [s0] ++ seq', [], i0 :: id', info, 10, [⟨i0 :: id', info, [s0] ++ seq', none⟩]⟩ _ _
+    (by simp [fqStep, e10])]
+  rw [foldlM_cons_ok (fqStep si true) _
+    ⟨10, [i0] ++ id', d2, [s0] ++ seq', [q0], i0 :: id', info, q0, [⟨i0 :: id', info, [s0] ++ seq', none⟩]⟩ _ _
+    (by simp [fqStep, hq0])]
+  obtain ⟨p4, h4⟩ := fq_qual si Q' [10] (fun c h => hqe c (List.mem_cons_of_mem _ h))
+    ([i0] ++ id') d2 ([s0] ++ seq') [q0] (i0 :: id') info q0 [⟨i0 :: id', info, [s0] ++ seq', none⟩]
+  rw [h4]
+  have hlen : ([q0] ++ Q').length = ([s0] ++ seq').length := by simpa using hQl
+  rw [foldlM_cons_ok (fqStep si true) _
+    ⟨11, [i0] ++ id', d2, [s0] ++ seq', [q0] ++ Q', i0 :: id', info, 10,
+      [⟨i0 :: id', info, [s0] ++ seq', some (([q0] ++ Q').map (readQ si))⟩]⟩ _ _
+    (by
+      have hl' : Q'.length = seq'.length := by simpa using hQl
+      simp [fqStep, e10, storeQ, hl']
+      rfl)]
+  simp
+  rfl
+
+/-! ## the JSON library contract and the header round trip -/
+
+/-- the contract of the JSON library assumed by the round-trip theorems, for one annotation value `p`
+    (validated by the harness on every generated annotation map, not proved) -/
+structure JsonLib.OKat {α : Type} (J : JsonLib α) (p : α × Option Bytes) : Prop where
+  /-- the encoder emits one balanced object whose string bodies are properly escaped -/
+  balanced : ∃ ts, J.marshal p = flat ts ∧ BalancedObj ts
+  /-- … on one line -/
+  oneLine : ∀ c ∈ J.marshal p, isEol c = false
+  /-- decoding what was encoded gives the same annotations (numbers by value) -/
+  roundtrip : J.unmarshal (J.marshal p) = some p
+
+/-- the contract for every annotation value -/
+def JsonLib.OK {α : Type} (J : JsonLib α) : Prop := ∀ p, J.OKat p
+
+theorem trimSpace_nil : trimSpace [] = [] := by decide
+
+theorem scanJson_nil : scanJson [] = none := by decide
+
+theorem header_roundtrip_aux {α : Type} [DecidableEq α] (J : JsonLib α) (ann : α) (defn : Option Bytes) (hJ : J.OKat (ann, defn)) :
+    parseFastSeqJsonHeader J.empty (J.lib (info J ann defn)) (info J ann defn) = some ⟨ann, defn⟩ := by
+  unfold info
+  split
+  · rename_i h
+    obtain ⟨h1, h2⟩ := h
+    simp [parseFastSeqJsonHeader, parseJsonHeader, scanJson_nil, h1, h2]
+  · obtain ⟨ts, hts, hb⟩ := hJ.balanced
+    have hs := scan_finds_object_aux ts hb []
+    rw [List.append_nil, ← hts] at hs
+    have hl : J.lib (J.marshal (ann, defn)) 0 (J.marshal (ann, defn)).length = some (ann, defn) := by
+      simp [JsonLib.lib, hJ.roundtrip]
+    simp [parseFastSeqJsonHeader, parseJsonHeader, hs, hl, trimSpace_nil]
+
+theorem info_head {α : Type} [DecidableEq α] (J : JsonLib α) (ann : α) (defn : Option Bytes) (hJ : J.OKat (ann, defn)) :
+    ∀ c, (info J ann defn).head? = some c → isSpace c = false := by
+  intro c hc
+  unfold info at hc
+  split at hc
+  · simp at hc
+  · obtain ⟨ts, hts, body, rfl, _, _⟩ := hJ.balanced
+    rw [hts, flat_cons] at hc
+    simp [Tok.flat] at hc
+    subst hc; decide
+
+theorem info_oneLine {α : Type} [DecidableEq α] (J : JsonLib α) (ann : α) (defn : Option Bytes) (hJ : J.OKat (ann, defn)) :
+    ∀ c ∈ info J ann defn, isEol c = false := by
+  intro c hc
+  unfold info at hc
+  split at hc
+  · simp at hc
+  · exact hJ.oneLine c hc
+
+/-! ## whole records -/
+
+set_option maxRecDepth 100000 in
+theorem writeQ_noEol (sh : UInt8) (h : sh = 33 ∨ sh = 64) (q : UInt8) : isEol (writeQ sh q) = false := by
+  rcases h with rfl | rfl
+  · revert q; apply forall_uint8; decide
+  · revert q; apply forall_uint8; decide
+
+set_option maxRecDepth 100000 in
+theorem writeQ_clamp (sh q : UInt8) : writeQ sh (min q 93) = writeQ sh q := by
+  have : ∀ q : UInt8, (if min q 93 > 93 then 93 else min q 93) = (if q > 93 then (93 : UInt8) else q) := by
+    apply forall_uint8; decide
+  simp only [writeQ, this]
+
+/-- well-formed record (the quantifier of the property): identifier non-empty without blank,
+    sequence non-empty over the parser alphabet (lower case, as `SetSequence` stores it) -/
+structure WF {α : Type} (r : Record α) : Prop where
+  id_ne : r.id ≠ []
+  id_noBlank : ∀ c ∈ r.id, isSep c = false
+  seq_ne : r.seq ≠ []
+  seq_ok : ∀ c ∈ r.seq, seqOK c = true
+
+theorem write_read_fasta_aux {α : Type} [DecidableEq α] (J : JsonLib α) (r : Record α) (hJ : J.OKat (r.ann, r.defn)) (h : WF r) :
+    readFasta J (writeFasta J r) = some [{ r with qual := none }] := by
+  unfold readFasta writeFasta
+  rw [parseFasta_formatFasta r.id _ r.seq h.id_ne h.id_noBlank (info_oneLine J _ _ hJ) (info_head J _ _ hJ)
+    h.seq_ne h.seq_ok]
+  simp [readRec, header_roundtrip_aux J _ _ hJ]
+
+theorem write_read_fastq_aux {α : Type} [DecidableEq α] (J : JsonLib α) (sh : UInt8)
+    (hsh : sh = 33 ∨ sh = 64) (r : Record α) (hJ : J.OKat (r.ann, r.defn)) (h : WF r)
+    (hq : (qualities r.seq r.qual).length = r.seq.length) :
+    readFastq J sh (writeFastq J sh r)
+      = some [{ r with qual := some ((qualities r.seq r.qual).map (fun q => min q 93)) }] := by
+  unfold readFastq writeFastq
+  rw [parseFastq_formatFastq sh sh r.id _ r.seq r.qual h.id_ne h.id_noBlank (info_oneLine J _ _ hJ)
+    (info_head J _ _ hJ) h.seq_ne h.seq_ok hq
+    (by intro c hc; simp only [List.mem_map] at hc; obtain ⟨q, _, rfl⟩ := hc; exact writeQ_noEol sh hsh q)]
+  have hm : ((qualities r.seq r.qual).map (writeQ sh)).map (readQ sh)
+      = (qualities r.seq r.qual).map (fun q => min q 93) := by
+    rw [List.map_map]
+    apply List.map_congr_left
+    intro q _
+    simp only [Function.comp, readQ, writeQ]
+    rw [UInt8.add_sub_cancel, clamp_eq_min]
+  simp [readRec, header_roundtrip_aux J _ _ hJ, hm]
+
+theorem qualities_some (s Q : Bytes) (h : Q ≠ []) : qualities s (some Q) = Q := by
+  simp [qualities, h]
+
+theorem write_fastq_clamped {α : Type} [DecidableEq α] (J : JsonLib α) (sh : UInt8) (r : Record α)
+    (hne : r.seq ≠ []) (hq : (qualities r.seq r.qual).length = r.seq.length) :
+    writeFastq J sh { r with qual := some ((qualities r.seq r.qual).map (fun q => min q 93)) }
+      = writeFastq J sh r := by
+  have hQ : (qualities r.seq r.qual).map (fun q => min q 93) ≠ [] := by
+    intro e
+    have := congrArg List.length e
+    simp only [List.length_map, hq, List.length_nil] at this
+    exact hne (List.length_eq_zero_iff.mp this)
+  have e : qualities r.seq (some ((qualities r.seq r.qual).map (fun q => min q 93)))
+      = (qualities r.seq r.qual).map (fun q => min q 93) := qualities_some _ _ hQ
+  simp only [writeFastq, formatFastq, e, List.map_map]
+  have : (writeQ sh ∘ fun q => min q 93) = writeQ sh := by
+    funext q; exact writeQ_clamp sh q
+  rw [this]
+
+/-! ## FASTA: any number of records -/
+
+/-- FASTA state 6 with a continuation -/
+theorem fa_seq_rest (w rest : Bytes) (hw : ∀ c ∈ w, isSep c = true ∨ seqOK c = true)
+    (idB dB sB qB ident defn : Bytes) (prev : UInt8) (out : List Rec) :
+    ∃ p, List.foldlM faStep ⟨6, idB, dB, sB, qB, ident, defn, prev, out⟩ (w ++ rest)
+       = List.foldlM faStep ⟨6, idB, dB, sB ++ (w.filter (fun c => !isSep c)).map lower, qB, ident, defn, p, out⟩ rest := by
+  induction w generalizing sB prev with
+  | nil => exact ⟨prev, by simp⟩
+  | cons c t ih =>
+    have ht := fun c h => hw c (List.mem_cons_of_mem _ h)
+    have h62s : isSep 62 = false := by decide
+    have h62o : seqOK 62 = false := by decide
+    have hne : c ≠ 62 := by
+      intro e; subst e
+      rcases hw 62 (by simp) with h | h
+      · rw [h62s] at h; cases h
+      · rw [h62o] at h; cases h
+    rcases hw c (by simp) with hc | hc
+    · obtain ⟨p, hp⟩ := ih ht sB c
+      refine ⟨p, ?_⟩
+      rw [List.cons_append, foldlM_cons_ok faStep _ ⟨6, idB, dB, sB, qB, ident, defn, c, out⟩]
+      · rw [hp]; simp [hc]
+      · simp [faStep, hc, hne]
+    · obtain ⟨h1, h2⟩ := seqOK_spec c hc
+      obtain ⟨p, hp⟩ := ih ht (sB ++ [c]) c
+      refine ⟨p, ?_⟩
+      rw [List.cons_append, foldlM_cons_ok faStep _ ⟨6, idB, dB, sB ++ [c], qB, ident, defn, c, out⟩]
+      · rw [hp]; simp [h1, h2]
+      · simp [faStep, h1, h2, hc, hne]
+
+/-- the text of one FASTA record after its leading `>` (as `FormatFastaBatch` prints it) -/
+def faBody (id info seq : Bytes) : Bytes := id ++ 32 :: (info ++ 10 :: (fold60 seq ++ [10]))
+
+theorem formatFasta_eq (id info seq : Bytes) : formatFasta id info seq ++ [10] = 62 :: faBody id info seq := by
+  simp [formatFasta, faBody]
+
+/-- one written record drives the FASTA machine from state 1 to state 6 with the record pending -/
+theorem fa_record (id info seq rest : Bytes)
+    (hid0 : id ≠ []) (hid : ∀ c ∈ id, isSep c = false)
+    (hinfo : ∀ c ∈ info, isEol c = false) (hhead : ∀ c, info.head? = some c → isSpace c = false)
+    (hseq0 : seq ≠ []) (hseq : ∀ c ∈ seq, seqOK c = true)
+    (idB dB sB qB ident defn : Bytes) (prev : UInt8) (out : List Rec) :
+    ∃ d, List.foldlM faStep ⟨1, idB, dB, sB, qB, ident, defn, prev, out⟩ (faBody id info seq ++ rest)
+       = List.foldlM faStep ⟨6, [], d, seq, qB, id, info, 10, out⟩ rest := by
+  cases id with
+  | nil => exact absurd rfl hid0
+  | cons i0 id' =>
+  cases seq with
+  | nil => exact absurd rfl hseq0
+  | cons s0 seq' =>
+  have hi0 := hid i0 (by simp)
+  obtain ⟨r, hr, hrm⟩ := fold60_cons s0 seq'
+  obtain ⟨hs0sep, hs0low⟩ := seqOK_spec s0 (hseq s0 (by simp))
+  obtain ⟨_, hs0e⟩ := isSep_false hs0sep
+  have e32s : isSep 32 = true := by decide
+  have e32e : isEol 32 = false := by decide
+  have e10s : isSep 10 = true := by decide
+  have e1062 : (10 : UInt8) ≠ 62 := by decide
+  have htext : faBody (i0 :: id') info (s0 :: seq') ++ rest
+      = i0 :: (id' ++ 32 :: (info ++ 10 :: s0 :: (r ++ 10 :: rest))) := by
+    simp [faBody, hr]
+  rw [htext]
+  rw [foldlM_cons_ok faStep _ ⟨2, [i0], dB, sB, qB, ident, defn, i0, out⟩ _ _ (by simp [faStep, hi0])]
+  obtain ⟨p1, h1⟩ := fa_id id' (32 :: (info ++ 10 :: s0 :: (r ++ 10 :: rest)))
+    (fun c h => hid c (List.mem_cons_of_mem _ h)) [i0] dB sB qB ident defn i0 out
+  rw [h1]
+  rw [foldlM_cons_ok faStep _ ⟨3, [], dB, sB, qB, i0 :: id', defn, 32, out⟩ _ _ (by simp [faStep, e32s, e32e])]
+  obtain ⟨p2, d2, h2⟩ := fa_title info (s0 :: (r ++ 10 :: rest)) hinfo hhead [] dB sB qB (i0 :: id') defn 32 out
+  rw [h2]
+  rw [foldlM_cons_ok faStep _ ⟨6, [], d2, [s0], qB, i0 :: id', info, s0, out⟩ _ _
+    (by simp [faStep, hs0e, hs0low, hseq s0 (by simp)])]
+  have hrw : ∀ c ∈ r, isSep c = true ∨ seqOK c = true := by
+    intro c hc
+    rcases hrm c hc with h | h
+    · subst h; exact Or.inl (by decide)
+    · exact Or.inr (hseq c h)
+  obtain ⟨p3, h3⟩ := fa_seq_rest r (10 :: rest) hrw [] d2 [s0] qB (i0 :: id') info s0 out
+  rw [h3]
+  have hf := fold60_filter (s0 :: seq')
+  rw [hr] at hf
+  have hseq' : ∀ c ∈ seq', seqOK c = true := fun c h => hseq c (List.mem_cons_of_mem _ h)
+  have hf2 : (List.filter (fun c => !isSep c) r).map lower = seq' := by
+    simp only [List.filter_cons, hs0sep, Bool.not_false, ↓reduceIte, List.cons.injEq, true_and] at hf
+    rw [hf]
+    exact unfold_id seq' hseq'
+  rw [hf2]
+  refine ⟨d2, ?_⟩
+  rw [foldlM_cons_ok faStep _ ⟨6, [], d2, [s0] ++ seq', qB, i0 :: id', info, 10, out⟩ _ _
+    (by simp [faStep, e10s, e1062])]
+  rfl
+
+
+/-- identifier, title remainder, sequence of a written record -/
+abbrev R3 := Bytes × Bytes × Bytes
+
+def recOf (r : R3) : Rec := ⟨r.1, r.2.1, r.2.2, none⟩
+
+/-- what the writer needs for its record to be re-readable -/
+def OK3 (r : R3) : Prop :=
+  r.1 ≠ [] ∧ (∀ c ∈ r.1, isSep c = false) ∧ (∀ c ∈ r.2.1, isEol c = false) ∧
+  (∀ c, r.2.1.head? = some c → isSpace c = false) ∧ r.2.2 ≠ [] ∧ ∀ c ∈ r.2.2, seqOK c = true
+
+/-- `FormatFastaBatch` on a list of records -/
+def faText : List R3 → Bytes
+  | [] => []
+  | r :: rs => 62 :: (faBody r.1 r.2.1 r.2.2 ++ faText rs)
+
+theorem fa_records (rs : List R3) (r : R3) (hr : OK3 r) (hrs : ∀ x ∈ rs, OK3 x)
+    (idB dB sB qB ident defn : Bytes) (prev : UInt8) (out : List Rec) :
+    ∃ st, List.foldlM faStep ⟨1, idB, dB, sB, qB, ident, defn, prev, out⟩ (faBody r.1 r.2.1 r.2.2 ++ faText rs) = .ok st
+      ∧ st.state = 6 ∧ st.seqB ≠ [] ∧ st.out ++ [⟨st.ident, st.defn, st.seqB, none⟩] = out ++ (r :: rs).map recOf := by
+  induction rs generalizing r idB dB sB qB ident defn prev out with
+  | nil =>
+    obtain ⟨h1, h2, h3, h4, h5, h6⟩ := hr
+    obtain ⟨d, hd⟩ := fa_record r.1 r.2.1 r.2.2 [] h1 h2 h3 h4 h5 h6 idB dB sB qB ident defn prev out
+    refine ⟨⟨6, [], d, r.2.2, qB, r.1, r.2.1, 10, out⟩, ?_, rfl, h5, ?_⟩
+    · rw [faText, hd]; rfl
+    · simp [recOf]
+  | cons r' rs ih =>
+    obtain ⟨h1, h2, h3, h4, h5, h6⟩ := hr
+    obtain ⟨d, hd⟩ := fa_record r.1 r.2.1 r.2.2 (faText (r' :: rs)) h1 h2 h3 h4 h5 h6 idB dB sB qB ident defn prev out
+    rw [hd, faText]
+    rw [foldlM_cons_ok faStep _ ⟨1, [], d, r.2.2, qB, r.1, r.2.1, 62, out ++ [⟨r.1, r.2.1, r.2.2, none⟩]⟩ _ _
+      (by simp [faStep, h5])]
+    obtain ⟨st, e1, e2, e3, e4⟩ := ih r' (hrs r' (by simp)) (fun x hx => hrs x (List.mem_cons_of_mem _ hx))
+      [] d r.2.2 qB r.1 r.2.1 62 (out ++ [⟨r.1, r.2.1, r.2.2, none⟩])
+    refine ⟨st, e1, e2, e3, ?_⟩
+    rw [e4]; simp [recOf]
+
+/-- **FASTA, any number of records**: what `FormatFastaBatch` prints for a non-empty list of records is parsed back
+    by the real state machine as exactly these records, in order -/
+theorem parseFasta_faText (r : R3) (rs : List R3) (hr : OK3 r) (hrs : ∀ x ∈ rs, OK3 x) :
+    parseFasta (faText (r :: rs)) = .ok ((r :: rs).map recOf) := by
+  obtain ⟨st, e1, e2, e3, e4⟩ := fa_records rs r hr hrs [] [] [] [] [] [] 62 []
+  obtain ⟨h1, h2, _⟩ := hr
+  have hb : ∃ i0 t, faBody r.1 r.2.1 r.2.2 ++ faText rs = i0 :: t ∧ i0 ≠ 32 := by
+    cases hid : r.1 with
+    | nil => exact absurd hid h1
+    | cons i0 id' =>
+      refine ⟨i0, _, rfl, ?_⟩
+      have := h2 i0 (by rw [hid]; simp)
+      intro e; subst e; revert this; decide
+  obtain ⟨i0, t, ht, hne⟩ := hb
+  rw [ht] at e1
+  rw [faText, ht]
+  simp only [parseFasta, ne_eq, not_true_eq_false, ↓reduceIte, hne]
+  rw [foldlM_cons_ok faStep _ ⟨1, [], [], [], [], [], [], 62, []⟩ _ _ (by simp [faStep])]
+  rw [e1]
+  simp only [List.nil_append] at e4
+  show (if st.state = 6 then
+      (if st.seqB = [] then Except.error Err.fatal
+       else pure (st.out ++ [⟨st.ident, st.defn, st.seqB, none⟩]))
+    else pure st.out) = _
+  rw [if_pos e2, if_neg e3, e4]; rfl
+
+def toR3 {α : Type} [DecidableEq α] (J : JsonLib α) (x : Record α) : R3 := (x.id, info J x.ann x.defn, x.seq)
+
+theorem writeFasta_flatten {α : Type} [DecidableEq α] (J : JsonLib α) (rs : List (Record α)) :
+    (rs.map (writeFasta J)).flatten = faText (rs.map (toR3 J)) := by
+  induction rs with
+  | nil => rfl
+  | cons r rs ih =>
+    simp only [List.map_cons, List.flatten_cons, ih, faText, writeFasta, formatFasta_eq, toR3]
+    rfl
+
+theorem toR3_OK {α : Type} [DecidableEq α] (J : JsonLib α) (x : Record α) (hJ : J.OKat (x.ann, x.defn)) (h : WF x) :
+    OK3 (toR3 J x) :=
+  ⟨h.id_ne, h.id_noBlank, info_oneLine J _ _ hJ, info_head J _ _ hJ, h.seq_ne, h.seq_ok⟩
+
+theorem mapM_readRec {α : Type} [DecidableEq α] (J : JsonLib α) (rs : List (Record α))
+    (hJ : ∀ x ∈ rs, J.OKat (x.ann, x.defn)) :
+    ((rs.map (toR3 J)).map recOf).mapM (readRec J) = some (rs.map (fun x => { x with qual := none })) := by
+  induction rs with
+  | nil => rfl
+  | cons r rs ih =>
+    have e : readRec J (recOf (toR3 J r)) = some { r with qual := none } := by
+      simp [readRec, recOf, toR3, header_roundtrip_aux J r.ann r.defn (hJ r (by simp))]
+    simp only [List.map_cons]
+    rw [List.mapM_cons, e, ih (fun x hx => hJ x (List.mem_cons_of_mem _ hx))]
+    rfl
+
+theorem write_read_fasta_many_aux {α : Type} [DecidableEq α] (J : JsonLib α) (r : Record α) (rs : List (Record α))
+    (hJ : ∀ x ∈ r :: rs, J.OKat (x.ann, x.defn)) (h : ∀ x ∈ r :: rs, WF x) :
+    readFasta J ((r :: rs).map (writeFasta J)).flatten = some ((r :: rs).map (fun x => { x with qual := none })) := by
+  unfold readFasta
+  rw [writeFasta_flatten, List.map_cons,
+    parseFasta_faText (toR3 J r) (rs.map (toR3 J)) (toR3_OK J r (hJ r (by simp)) (h r (by simp)))
+      (by
+        intro x hx
+        obtain ⟨y, hy, rfl⟩ := List.mem_map.mp hx
+        exact toR3_OK J y (hJ y (List.mem_cons_of_mem _ hy)) (h y (List.mem_cons_of_mem _ hy)))]
+  exact mapM_readRec J (r :: rs) hJ
+
 end ObiVerif.Header
